@@ -44,29 +44,36 @@ MANIFEST = dict(
          "encoder C08_pp_roundtrip); "
          "ARC RLE90 for every well-formed token stream and for the concrete encoder (C08_rle90_roundtrip, C08_rle90_encoder). BYTE-LEVEL "
          "FRAMING theorems: gzip (above); ARC/Spark arc_read on bytes: header walk over excluded members, member selection, stored + RLE90 "
-         "methods, CRC-16 gate (C08_arc_framing); zip: end-of-central-directory record, central directory walk and local headers yield "
+         "methods, CRC-16 gate (C08_arc_framing), sub-directories as nested archives with the walker's directory level: members inside "
+         "open or after closed Spark / ARC 6 directories of any depth are reached (C08_arc_framing_dirs); zip: end-of-central-directory record, central directory walk and local headers yield "
          "exactly the written members, stored members come back unconditionally and deflated ones given a correct inflate (C08_zip_members, "
          "C08_zip_framing), miniz' 4096-byte window search with 3-byte overlap finds the last record behind every legal archive comment "
          "(C08_zip_eocd_scan, C08_zip_framing_comment); LHA: the lhasa reader model (archive start search, header levels 0/1/2 with length/checksum tests, name fields, "
          "extended header walk, MS-DOS all-caps fix, member walk, stored decoder) returns the first non-excluded -lh0- member "
          "(C08_lha_framing); ArcFS: header checks, entry table walk, value offsets, stored + RLE90, CRC-16 gate (C08_arcfs_framing); LZX: entry headers with names/comments, chained header CRC-32, merge state machine on "
          "unmerged entries, stored extraction, CRC-32 gate (C08_lzx_framing); MMCMP: header, block offset table, block and sub-block headers, copy of every "
-         "sub-block to its position in the zero-filled output (C08_mmcmp_framing). PIPELINES loadByPath(wrap p) = loadFromMemory p with md5 = MD5 p: C08_pipeline_gzip (hypothesis: inflate), "
+         "sub-block to its position in the zero-filled output (C08_mmcmp_framing); the block decoders block_unpack_8bit / _16bit are modelled (mmDec: LSB-first bit "
+         "reader with 0xFF past EOF, code-width changes, escape codes, end marker, translation table, delta predictor / sign handling, sub-block "
+         "switching; code tables and flag bits from the translator) and block_unpack_8bit is proved to invert the fixed-width encoder mmEncode8 "
+         "with and without DELTA for every list of sub-blocks placed anywhere, in any order, in the output buffer -- the predictor runs through "
+         "the whole block (C08_mmcmp_unpack8); files mixing stored, packed and packed+DELTA blocks unpack to the payload with no decoder "
+         "hypothesis (C08_mmcmp_framing_packed). PIPELINES loadByPath(wrap p) = loadFromMemory p with md5 = MD5 p: C08_pipeline_gzip (hypothesis: inflate), "
          "C08_pipeline_compress, C08_pipeline_pp and C08_pipeline_pp_tokens (no decoder hypothesis), C08_pipeline_arc / _arc_rle90 (stored + RLE90, no decoder "
-         "hypothesis), C08_pipeline_zip (stored: none; deflated: inflate), C08_pipeline_lha (-lh0-: none), C08_pipeline_arcfs (stored + RLE90: none), C08_pipeline_lzx (stored: none), C08_pipeline_mmcmp (stored blocks: none), generic C08_pipeline_of_decrunch, C08_not_packed; over the "
+         "hypothesis), C08_pipeline_zip (stored: none; deflated: inflate), C08_pipeline_lha (-lh0-: none), C08_pipeline_arcfs (stored + RLE90: none), C08_pipeline_lzx (stored: none), C08_pipeline_mmcmp (stored blocks: none), C08_pipeline_mmcmp_packed (stored + 8-bit packed blocks with the modelled decoder: none), generic C08_pipeline_of_decrunch, C08_not_packed; over the "
          "generated depacker_list all signature tests except LHA's are pairwise exclusive, so the dispatch order matters for LHA only "
          "(C08_tests_exclusive, C08_dispatch_of_test, C08_dispatch_gzip). The model is tied to the C on every run by regenerated facts "
          "(depacker_list order and magic tests, exclude globs, sniff limits, gzip flag bits, MD5 step table, BUFLEN) and by differential "
          "correspondence: real md5.c, depacker test functions, libxmp_exclude_match, arc_unpack(RLE90), link-time spies inside "
          "xmp_load_module, and the real depack() entry points (decrunch_compress, decrunch_pp, arc_read, arcfs_read, lzx_read, decrunch_mmcmp, decrunch_zip, decrunch_lha) run on "
          "streams of the independent python writers, on streams/archives written by the LEAN encoders of the theorems (lzwEncode, ppEncode, "
-         "arcWrap / arcfsWrap + rle90Enc, zipWrap, lhaWrap, lzxWrap, mmcmpWrap; the zip writer is refereed by python zipfile) and on mutated streams, compared with the Lean "
-         "decoders (for LHA also the repository's LH1/5/6/7 archives, header walk only). A direct "
+         "arcWrap / arcfsWrap + rle90Enc, zipWrap, lhaWrap, lzxWrap, mmcmpWrap, mmcmpWrapK + mmEncode8; the zip writer is refereed by python zipfile) and on mutated streams, compared with the Lean "
+         "decoders (for LHA also the repository's LH1/5/6/7 archives, header walk only; for MMCMP the complete model incl. both block decoders on files of an "
+         "independent python compressor: 8/16-bit adaptive widths, DELTA, ABS16, shuffled sub-blocks, several blocks, end markers). A direct "
          "oracle loads archives produced by independent encoders through the real library; it includes payload boundary classes "
          "(modules and raw payloads that begin and end with runs of 1..6 equal bytes of the same value, all-zero / all-0xFF, 0/2/4 "
          "sample bytes, lengths 1..4) through every codec, and excluded `*.ext` members inside sub-directories in front of a module "
          "that sits in a sub-directory (zip, LZX, LHA, ARC, ArcFS).",
-    note="PARTIAL: the entropy decoders inflate, bzip2, LZMA2, LH1/5/6/7, LZX, ARC squeeze/crunch/squash, SQSH, S404 and the MMCMP bit coder "
+    note="PARTIAL: the entropy decoders inflate, bzip2, LZMA2, LH1/5/6/7, LZX, ARC squeeze/crunch/squash, SQSH and S404 "
          "are parameters of the model, not proved (exercised by the oracle against independent encoders only); LZW of compress(1), PowerPacker "
          "and RLE90 are modelled and proved completely (PowerPacker for every legal token stream; bit_buffer/todo are unbounded naturals in the "
          "model, the C widths suffice for efficiency bytes <= 15 and files below 1 GiB), the LZW theorem excludes maxbits=9 (the decoder lineage switches to 10-bit codes when the 9-bit table "
@@ -76,7 +83,10 @@ MANIFEST = dict(
          "windows as fixed in /repo 956fc91; comment lengths around the window borders are also exercised by the oracle) and LHA -lh0- members "
          "with plain names (no path separators) and level 0/1/2 headers (level 3, paths, common-CRC and SFX stubs are modelled and tied by "
          "correspondence, not in the theorem; the 24-byte lead-in buffer of lhasa is abstracted); LZX is proved for stored unmerged members (merged groups and the LZX decoder are modelled/parameter and tied by correspondence); "
-         "MMCMP is proved for stored blocks (the bit coder of compressed blocks is a parameter); xz/bzip2/SQSH/S404 containers are opaque in the "
+         "MMCMP is proved for stored blocks and for 8-bit blocks written at the fixed code width 7 with the identity table (adaptive code widths, custom "
+         "translation tables, the end marker and the 16-bit decoder with DELTA/ABS16 are modelled in mmDec and tied by correspondence on the python "
+         "compressor's and on mutated files, not in a theorem; the 32-bit bit window of the C is abstracted to a bit position, the per-file budget "
+         "total_unpk of /repo 353a4b5 is in the model); xz/bzip2/SQSH/S404 containers are opaque in the "
          "pipeline model (oracle only). "
          "Out of the property's quantifier and rejected by the code: concatenated multi-member gzip, xz dictionaries above XZ_MAX_DICT "
          "(known finding), zip names not matching the exclude globs (e.g. dir/README). Loaders that read companion files by path are "
@@ -94,8 +104,8 @@ REQUIRED = ["Xmp.Container." + n for n in (
     "C08_pipeline_partial", "C08_not_packed",
     "C08_lzw_input_macro", "C08_lzw_align", "C08_lzw_roundtrip", "C08_pipeline_compress",
     "C08_pp_read_bits", "C08_pp_roundtrip", "C08_pp_tokens", "C08_pipeline_pp", "C08_pipeline_pp_tokens",
-    "C08_zip_members", "C08_zip_framing", "C08_zip_eocd_scan", "C08_zip_framing_comment", "C08_pipeline_zip", "C08_lha_framing", "C08_pipeline_lha", "C08_arcfs_framing", "C08_pipeline_arcfs", "C08_lzx_framing", "C08_pipeline_lzx", "C08_mmcmp_framing", "C08_pipeline_mmcmp",
-    "C08_rle90_encoder", "C08_arc_framing", "C08_pipeline_arc", "C08_pipeline_arc_rle90")]
+    "C08_zip_members", "C08_zip_framing", "C08_zip_eocd_scan", "C08_zip_framing_comment", "C08_pipeline_zip", "C08_lha_framing", "C08_pipeline_lha", "C08_arcfs_framing", "C08_pipeline_arcfs", "C08_lzx_framing", "C08_pipeline_lzx", "C08_mmcmp_framing", "C08_pipeline_mmcmp", "C08_mmcmp_unpack8", "C08_mmcmp_framing_packed", "C08_pipeline_mmcmp_packed",
+    "C08_rle90_encoder", "C08_arc_framing", "C08_arc_framing_dirs", "C08_pipeline_arc", "C08_pipeline_arc_rle90")]
 
 WRAPS = ["-Wl,--wrap=libxmp_exclude_match", "-Wl,--wrap=libxmp_tinfl_decompress_mem_to_heap",
          "-Wl,--wrap=libxmp_arc_unpack", "-Wl,--wrap=hio_reopen_mem", "-Wl,--wrap=MD5Update"]
@@ -265,6 +275,7 @@ def corr_boundary(ck, exe, workdir, quick):
             streams.append(("pp", W.pp20(p, use_matches=True, max_match=rng.choice([5, 40, 300]))))
         if len(p) >= 16:
             streams.append(("mmcmp", W.mmcmp_stored(p, block_size=rng.choice([64, 5000]), subs_per_block=rng.choice([1, 3]))))
+            streams.append(("mmcmp", W.mmcmp_packed(p, rng, kinds=("8bit", "16bit"))[0]))
         for codec, st in streams:
             items.append((codec, st))
             meta.append((codec, name, p))
@@ -355,6 +366,34 @@ ZIP_COMMENT_MORE = [x for x in ZIP_COMMENT_MORE if 0 < x <= 65535]
 def zip_comment(rng, n):
     # never contains the byte 0x05, so no `PK\5\6` inside the comment
     return bytes(rng.choice(b"abcdefghijklmnopqrstuvwxyz0123456789 PK.") for _ in range(n))
+
+
+def arc_random_tree(rng, p, nm, meth, placement, depth):
+    """ARC/Spark node list with nested directories of the given depth; the module sits before / inside / after the
+    (closed) sub-directories; excluded companions are spread over all levels"""
+    def junk():
+        return [("file", n, d, rng.choice([2, 3])) for n, d in companions(rng, ["ReadMe", "README", "A.TXT", "x/i.nfo", "InfoText"], maxn=2)]
+    mod = ("file", nm, p, meth)
+    inner_at = rng.randint(1, depth)          # level that holds the module when it is inside
+
+    def build(level):
+        nodes = junk()
+        if level == inner_at and placement == "inside":
+            nodes.insert(rng.randint(0, len(nodes)), mod) if rng.random() < 0.5 else nodes.append(mod)
+        if level < depth:
+            sub = ("dir", rng.choice(["Docs", "Sub", "d%d" % level]), build(level + 1))
+            nodes.insert(rng.randint(0, len(nodes)), sub)
+            if level + 1 == inner_at and placement == "after-inner":
+                nodes.append(mod)           # in the parent, right after the closed child
+        return nodes
+    top = junk() + [("dir", rng.choice(["Docs", "Stuff", "Dir"]), build(1))] + junk()
+    if placement == "before":
+        top = [mod] + top
+    elif placement == "after":
+        top = top + [mod]
+    elif placement == "after-inner" and inner_at == 1:
+        top = top + [mod]
+    return top
 
 
 def make_archive(rng, fmt, p, xzmax, force=None):
@@ -486,8 +525,14 @@ def make_archive(rng, fmt, p, xzmax, force=None):
         meth = rng.choice([2, 3, 3] if spark else [1, 2, 3, 3])
         nm = rng.choice(["SONG.MOD", "TEST.XM", "A", "MODULE", "tune/it"])
         members = [(n, d, rng.choice([2, 3])) for n, d in pre] + [(nm, p, meth)] + [(n, d, 2) for n, d in post]
-        a = W.arc_archive(members, spark)
-        r.update(dict(spark=spark, method=meth, members=[m[0] for m in members]))
+        placement = force.get("tree", rng.choice([None, None, "before", "inside", "after", "after-inner"]))
+        if placement:
+            depth = force.get("depth", rng.randint(1, 3))
+            a = W.arc_tree(arc_random_tree(rng, p, nm, meth, placement, depth), spark)
+            r.update(dict(spark=spark, method=meth, tree=placement, depth=depth))
+        else:
+            a = W.arc_archive(members, spark)
+            r.update(dict(spark=spark, method=meth, members=[m[0] for m in members]))
     elif fmt == "arcfs":
         pre, post = split_companions(rng, companions(rng, ["ReadMe", "README", "readme", "A.TXT", "InfoText", "x.doc", "d/A.TXT", "a/b/x.doc"]))
         meth = rng.choice([0x82, 0x83])
@@ -517,8 +562,14 @@ def make_archive(rng, fmt, p, xzmax, force=None):
         if len(p) // bs > 2000:
             bs = 0x10000
         sp = rng.choice([1, 1, 2, 5])
-        a = W.mmcmp_stored(p, block_size=bs, subs_per_block=sp)
-        r.update(dict(block_size=bs, subs=sp))
+        if force.get("packed", rng.random() < 0.6):
+            st = rng.getstate()
+            kinds = force.get("kinds", ("stored", "8bit", "16bit"))
+            a, desc = W.mmcmp_packed(p, rng, max_block=rng.choice([5000, 20000, 0x10000]), kinds=kinds)
+            r.update(dict(packed=True, nblocks=len(desc), kinds=sorted(set(d.split("/")[0] for d in desc)), rngstate=hash(st) & 0xffffffff))
+        else:
+            a = W.mmcmp_stored(p, block_size=bs, subs_per_block=sp)
+            r.update(dict(block_size=bs, subs=sp))
     elif fmt == "bare":
         a = p
     else:
@@ -1080,6 +1131,28 @@ def corr_arcenc(ck, exe, workdir, n):
              [(n_, 2, d) for n_, d in companions(rng, ARC_EXCLUDED + ["OTHER.MOD"])]
         lines.append("arcenc %d %s" % (1 if spark else 0, " ".join("%s:%d:%s" % (a.encode().hex(), m + (128 if spark else 0), d.hex() or "-") for a, m, d in ms)))
         exp.append(p)
+    # nested directories (Spark sub-archives / ARC 6 directories) written by the Lean item writer: the object of
+    # C08_arc_framing_dirs; module before / inside / after closed directories, depth 1..3
+    def flatten(nodes, spark):
+        out = []
+        for nd in nodes:
+            if nd[0] == "file":
+                out.append("f:%s:%d:%s" % (nd[1].encode().hex(), nd[3] + (128 if spark else 0), nd[2].hex() or "-"))
+            else:
+                out.append("o:%s" % nd[1].encode().hex())
+                out += flatten(nd[2], spark)
+                out.append("c:%d" % (128 if spark else 31))
+        return out
+    ntrees = 0
+    for i in range(n):
+        spark = rng.random() < 0.5
+        p = lzw_payload(rng, rng.choice([1, 3, 40, 700]))
+        nodes = arc_random_tree(rng, p, rng.choice(["SONG.MOD", "A", "tune/it"]), rng.choice([2, 3] if spark else [1, 2, 3]),
+                                rng.choice(["before", "inside", "after", "after-inner"]), rng.randint(1, 3))
+        lines.append("arcitems %d %s" % (1 if spark else 0, " ".join(flatten(nodes, spark))))
+        exp.append(p)
+        ntrees += 1
+    ck.bump("arc_lean_written_directory_trees", ntrees)
     out = vlib.run_driver("drv_c08", "".join(l + "\n" for l in lines), timeout=3000)
     arcs = [bytes.fromhex(o[2:]) for o in out]
     real = run_dp(ck, exe, workdir, "arcenc", [("arc", a) for a in arcs])
@@ -1312,6 +1385,11 @@ def corr_mmcmp(ck, exe, workdir, n):
     for i in range(n):
         p = lzw_payload(rng, rng.choice([16, 17, 40, 700, 5000, 20000]))
         cases.append((W.mmcmp_stored(p, block_size=rng.choice([0x10000, 5000, 333, 64]), subs_per_block=rng.choice([1, 1, 2, 5])), p, p, "python-writer"))
+    for i in range(2 * n):               # bit-packed blocks: 8/16 bit, DELTA, ABS16, several (shuffled) sub-blocks, several blocks
+        p = lzw_payload(rng, rng.choice([16, 17, 40, 700, 5000, 20000]))
+        a, desc = W.mmcmp_packed(p, rng)
+        cases.append((a, p, p, "python-compressor " + ",".join(desc[:6])))
+    ck.bump("mmcmp_python_compressed_files", 2 * n)
     if ck.lean_ok:
         enc = []
         for i in range(n):
@@ -1327,9 +1405,12 @@ def corr_mmcmp(ck, exe, workdir, n):
                     subs.append(sb)
                 blocks.append(subs)
             enc.append(("mmcmpenc " + " ".join(":".join(sb.hex() for sb in b) for b in blocks), p))
+            # the same split through mmcmpWrapK (object of C08_mmcmp_framing_packed): per block stored / packed by the
+            # Lean encoder mmEncode8 / packed with DELTA -- the REAL block_unpack_8bit must invert the Lean encoder
+            enc.append(("mmcmpenck " + " ".join(rng.choice("spdd") + ":" + ":".join(sb.hex() for sb in b) for b in blocks), p))
         out = vlib.run_driver("drv_c08", "".join(l + "\n" for l, _ in enc), timeout=3000)
         for (l, p), o in zip(enc, out):
-            cases.append((bytes.fromhex(o[2:]), p, p, "lean-writer (%d blocks)" % l.count(" ")))
+            cases.append((bytes.fromhex(o[2:]), p, p, "lean-writer %s (%d blocks)" % (l.split(" ", 1)[0], l.count(" "))))
     legit = len(cases)
     for i in range(3 * n):
         a, exp, p, tag = cases[rng.randrange(legit)]
@@ -1348,7 +1429,7 @@ def corr_mmcmp(ck, exe, workdir, n):
     for (a, exp, p, tag), r in zip(cases, real):
         if exp is not None and r != "D ok %d %016x" % (len(exp), fnv1a(exp)):
             if tag.startswith("lean-writer"):
-                ck.unproved("correspondence Container.mmcmpWrap (Lean writer) vs decrunch_mmcmp", "%s: real=%s" % (tag, r))
+                ck.unproved("correspondence Container.mmcmpWrap / mmcmpWrapK + mmEncode8 (Lean writers) vs decrunch_mmcmp", "%s: real=%s" % (tag, r))
             else:
                 ck.violation("oracle:mmcmp:stream", {"archive_hex": a.hex() if len(a) < 40000 else None, "what": tag},
                              "decrunch_mmcmp does not return the payload of a legal file (%s): %s" % (tag, r))
@@ -1357,9 +1438,6 @@ def corr_mmcmp(ck, exe, workdir, n):
         return
     model = vlib.run_driver("drv_c08", "".join("mmcmp %s %s\n" % (a.hex(), p.hex() or "-") for a, _, p, _ in cases), timeout=3000)
     for (a, exp, p, tag), r, m in zip(cases, real, model):
-        if m == "D dec" and exp is None:
-            ck.bump("mmcmp_mutated_cases_reaching_a_parameter_decoder")
-            continue
         if r != m:
             ck.unproved("correspondence Container.decrunchMmcmp vs decrunch_mmcmp", "%s (%d bytes): real=%s model=%s head=%s" % (tag, len(a), r, m, a[:64].hex()))
             return
@@ -1622,6 +1700,13 @@ def run(ck):
     for fmt in ("zip", "lzx", "lha"):
         for _ in range(3 if quick else 12):
             plan.append((tiny if ck.rng.random() < 0.5 else ck.rng.choice(pool), fmt, {"subdir": True}))
+    # ARC / Spark sub-directories (nested archives): module before / inside / after closed directories, depth 1..3
+    for placement in ("before", "inside", "after", "after-inner"):
+        for depth in ((1, 2) if quick else (1, 2, 3, 3)):
+            plan.append((tiny if ck.rng.random() < 0.5 else ck.rng.choice(pool), "arc", {"tree": placement, "depth": depth}))
+    # MMCMP bit-packed blocks (8/16 bit, DELTA, several sub-blocks per block)
+    for _ in range(4 if quick else 20):
+        plan.append((ck.rng.choice(pool), "mmcmp", {"packed": True, "kinds": ("8bit", "16bit")}))
     # old-format compress(1) streams (no block mode): code 256 is an ordinary table entry there
     for _ in range(2 if quick else 6):
         plan.append((aaaa, "compress", {"block_mode": False}))
